@@ -232,7 +232,7 @@ def generate(ctx, module, family, constants, shards, stride=1, timeout=900, name
 # --------------------------------------------------------------------------------------------
 # replay against the real code
 
-def replay(ctx, files, cats, canary_every=5000, oneshot=False, keep=300, timeout=3600, extra=()):
+def replay(ctx, files, cats, canary_every=5000, oneshot=False, keep=3000, timeout=3600, extra=()):
     """Run jmv replay; violations whose category is in `cats` become candidates."""
     out = os.path.join(ctx.scratch, "replay.%d.json" % len(ctx.tlc_runs))
     cmd = [ctx.jmv, "replay", "-out", out, "-keep", str(keep), "-canary-every", str(canary_every)]
@@ -357,18 +357,23 @@ def report(ctx, confirmed):
     seen = set()
     nviol = 0
     for v in fresh:
-        key = hashlib.sha1(json.dumps([v.get("cat"), v.get("src"), v.get("doc"), v.get("tag")], sort_keys=True).encode()).hexdigest()[:12]
+        # one line per distinct failing expression (family, case id), whatever the spelling / document
+        sig = json.dumps([v.get("cat"), v.get("fam"), v.get("id"), v.get("tag")] if v.get("fam") else
+                         [v.get("cat"), v.get("src"), v.get("doc"), v.get("tag")], sort_keys=True)
+        key = hashlib.sha1(sig.encode()).hexdigest()[:12]
         if key in seen:
             continue
         seen.add(key)
         nviol += 1
-        if nviol > 25:
+        if nviol > 15:
             continue
         path = os.path.join(ROOT, "replays", "%s-%s.json" % (ctx.prop, key))
         with open(path, "w") as f:
             json.dump({"property": ctx.prop, "violation": v, "tier": ctx.tier, "seed": ctx.seed}, f, indent=1)
         what = "%s expr=%r observed=%s" % (v.get("cat"), v.get("src"), (v.get("observed") or "")[:160])
         print("VIOLATION property=%s replay=%s  # %s" % (ctx.prop, path, what), flush=True)
+    if nviol > 15:
+        print("# ... and %d more distinct failing expressions (see evidence)" % (nviol - 15), flush=True)
     ctx.violations = nviol
     return 1 if nviol else 0
 
